@@ -363,7 +363,7 @@ func writeInstalled(pkgs []*apk.Package, files [][]tar.Header) (string, error) {
 }
 
 // sortSizeCap mirrors Formats.sortSizeCap: above this many predicted records the real sortTarHeaders is not run (F16i).
-const sortSizeCap = 100000
+const sortSizeCap = 2000
 
 // predictSortSize walks the header list the way sortTarHeaders / sortChildrenTarHeaders do (same maps, same
 // start set, same order) but only counts the records that would be emitted, and gives up above limit.  It is
